@@ -1150,6 +1150,8 @@ fn qv_path_cases(r: &mut Rng, t: Tier, n_cases: usize, space: bool, out: &mut Ve
         let sh = r.below(8);
         let vals = if n == 0 { vec![] } else { shaped_seq(r, n, &[0, 1, 2, 3], sh) };
         let js = join(&vals);
+        // the trees get the same symbols shifted by 64: four levels, the upper three with one digit only
+        let jt = join(&vals.iter().map(|x| x + 64).collect::<Vec<u128>>());
         let cap = *r.pick(&[0usize, 1, n / 2, n, n + 1, 2 * n + 300, 4096]);
         c.tag(format!("lenclass={}", len_class(n)));
         c.tag(format!("cap={}", if cap == 0 { "0" } else if cap < n { "<n" } else if cap == n { "n" } else { ">n" }));
@@ -1164,8 +1166,8 @@ fn qv_path_cases(r: &mut Rng, t: Tier, n_cases: usize, space: bool, out: &mut Ve
             format!("mk 6 rsq {} {}", cfg.0, js),
             format!("mk 7 rsq:inexact {} {}", cfg.0, js),
             format!("mk 8 rsq:frombuilder {} {}", cfg.0, js),
-            format!("mk 9 qwt:iterx {}", js),
-            format!("mk 10 qwt:new {}", js),
+            format!("mk 9 qwt:iterx {}", jt),
+            format!("mk 10 qwt:new {}", jt),
             // size hint with a positive lower bound and no upper bound (header of h values + filtered rest)
             format!("mk 11 qvchain {} {}", *r.pick(&[0usize, 1, 255, 256, 257, 512, 768, 1024, n / 2, n]), js),
             format!("mk 12 qvchain {} {}", 256 * r.range(0, (n / 256) as u64) as usize, js),
@@ -1185,7 +1187,7 @@ fn qv_path_cases(r: &mut Rng, t: Tier, n_cases: usize, space: bool, out: &mut Ve
                 toks.join(" ")
             }),
             // From<Vec> of a vector with spare capacity
-            format!("mk 16 qwt:fromcap {}", js),
+            format!("mk 16 qwt:fromcap {}", jt),
         ];
         for (k, mk) in mks.iter().enumerate() {
             c.l(mk.trim_end().to_string());
@@ -2451,6 +2453,9 @@ pub fn cases(prop: &str, t: Tier, seed: u64) -> Vec<Case> {
                 }
                 out.push(c);
             }
+            // every construction path of the quad vectors and of trees over them (builder, with_capacity, chained /
+            // filtering / non-fused sources, From<Vec> with spare capacity), compared with ==
+            qv_path_cases(r, t, scale(t, 10, 60), false, &mut out);
             let mut tmp = vec![];
             rsq_cases(r, t, &["get", "rank", "select"], &[], scale(t, 18, 100), &mut tmp);
             for mut c in tmp {
@@ -2619,28 +2624,27 @@ pub fn cases(prop: &str, t: Tier, seed: u64) -> Vec<Case> {
         }
     }
     // C04: `Debug::fmt` is a safe public method of every structure: it must not panic on any reachable value
+    // (called right after each construction: slots are reused inside a case)
     if prop == "C04" {
+        let kinds = ["qwt", "hqwt", "wt", "hwt", "qv", "qvx", "qvpush", "rsq", "rsqdefault", "bvbits", "bvpos", "bvzpos", "bvnew", "bvzeros", "rsn", "rsw", "da", "dabits", "dapos", "dadefault", "rsndefault", "rswdefault", "copy", "serde"];
         for c in out.iter_mut() {
             if c.tags.iter().any(|t| t == "scale") {
                 continue;
             }
-            let mut slots: Vec<usize> = vec![];
-            for l in &c.lines {
+            let mut lines: Vec<String> = Vec::with_capacity(c.lines.len() + 8);
+            let mut budget = 24;
+            for l in c.lines.drain(..) {
                 let t: Vec<&str> = l.split(' ').collect();
-                if t.len() >= 3 && t[0] == "mk" {
-                    let kind = t[2].split(':').next().unwrap_or("");
-                    if ["qwt", "hqwt", "wt", "hwt", "qv", "qvx", "qvpush", "rsq", "rsqdefault", "bvbits", "bvpos", "bvzpos", "bvnew", "bvzeros", "rsn", "rsw", "da", "dabits", "dapos", "dadefault", "rsndefault", "rswdefault"].contains(&kind) {
-                        if let Ok(k) = t[1].parse::<usize>() {
-                            if !slots.contains(&k) {
-                                slots.push(k);
-                            }
-                        }
+                let dbg_slot = if t.len() >= 3 && t[0] == "mk" && kinds.contains(&t[2].split(':').next().unwrap_or("")) && l.len() < 400_000 { t[1].parse::<usize>().ok() } else { None };
+                lines.push(l.clone());
+                if let Some(k) = dbg_slot {
+                    if budget > 0 {
+                        lines.push(format!("q {} debug", k));
+                        budget -= 1;
                     }
                 }
             }
-            for k in slots {
-                c.l(format!("q {} debug", k));
-            }
+            c.lines = lines;
         }
     }
     // the properties quantify over every value / every reachable state: clones and deserialised copies too
